@@ -49,6 +49,8 @@ def show(v):
         return repr(v[1])
     if k == "err":
         return "Err!"
+    if k == "closure":
+        return "<closure>"
     if k == "st":
         return "%s{%s}" % (v[1], ", ".join("%s: %s" % (a, show(b)) for a, b in sorted(v[2].items())))
     return v[1]
